@@ -207,6 +207,8 @@ inductive Eff
   | memUnassign (s : Nat) (t : Tag) (n : Name) (f : Flav)
   /-- `ProductStack.save(flavor)` of the stack's cache -/
   | save (s : Nat) (f : Flav)
+  /-- `shutil.rmtree(product.dir)` (`Eups.remove`) -/
+  | rmTree (d : Dir)
   deriving DecidableEq, Repr
 
 def Eff.isDb : Eff → Bool
@@ -262,6 +264,7 @@ inductive Outcome
   | ok
   | refused      -- `EupsException`
   | notFound     -- `ProductNotFound`
+  | failed       -- `RuntimeError` (`remove`: the directory is not there any more)
   deriving DecidableEq, Repr
 
 /-- A running command: where it started, and what it has done so far. -/
@@ -491,6 +494,22 @@ def undeclare (nst : Nat) (a : UndeclareArgs) (p : Proc) : Outcome × Proc :=
       undeclareVersion nst a ver p
     else unassignTag nst a.self t a.name a.ver a.stack a.noaction p
 
+/-! ## `Eups.remove`, one product -/
+
+/-- `Eups.remove(name, version)` with `recursive=False, checkRecursive=False`: `_remove` finds the product
+(native flavor, whole path), `undeclare(name, version)` undeclares it, then the directory goes — or, in a
+dry run, "rm -rf" is printed.  (The recursive collection and the in-use check are C14's `Remove` model; this
+is its per-product step.) -/
+def remove (nst : Nat) (self : Flav) (n : Name) (v : Ver) (noaction : Bool) (p : Proc) : Outcome × Proc :=
+  match p.mem.findIn (allStacks nst) n v self with
+  | none => (.notFound, p)
+  | some prod =>
+    match undeclare nst ⟨self, n, some v, none, none, false, noaction⟩ p with
+    | (.ok, p1) =>
+      if noaction then (.ok, p1) else
+      if p.dirExists prod.dir then (.ok, p1.emit (.rmTree prod.dir)) else (.failed, p1)   -- `rmtree` raised
+    | r => r
+
 /-! ## commands -/
 
 inductive Cmd
@@ -498,6 +517,7 @@ inductive Cmd
   | undeclare (a : UndeclareArgs)
   | assignTag (self : Flav) (t : Tag) (n : Name) (v : Ver) (stack : Option Nat)
   | unassignTag (self : Flav) (t : Tag) (n : Name) (v : Option Ver) (stack : Option Nat) (noaction : Bool)
+  | remove (self : Flav) (n : Name) (v : Ver) (noaction : Bool)
   | query (self : Flav)
   deriving Repr
 
@@ -507,6 +527,7 @@ def Cmd.self : Cmd → Flav
   | .undeclare a => a.self
   | .assignTag f .. => f
   | .unassignTag f .. => f
+  | .remove f .. => f
   | .query f => f
 
 def Cmd.noaction : Cmd → Bool
@@ -514,6 +535,7 @@ def Cmd.noaction : Cmd → Bool
   | .undeclare a => a.noaction
   | .assignTag .. => false
   | .unassignTag _ _ _ _ _ na => na
+  | .remove _ _ _ na => na
   | .query _ => true
 
 def run (nst : Nat) (c : Cmd) (p : Proc) : Outcome × Proc :=
@@ -522,6 +544,7 @@ def run (nst : Nat) (c : Cmd) (p : Proc) : Outcome × Proc :=
   | .undeclare a => undeclare nst a p
   | .assignTag f t n v st => assignTag f t n v (stacksOf nst st) p
   | .unassignTag f t n v st na => unassignTag nst f t n v st na p
+  | .remove f n v na => remove nst f n v na p
   | .query _ => (.ok, p)
 
 end EupsModel.Db
